@@ -117,7 +117,7 @@ fn session(p: &mut Prng, w: &mut World, pfx: &str, plan: &Plan, scripted: Option
     let script = |p: &mut Prng, fixed: Option<&str>| -> Value {
         match fixed {
             Some(h) => json!({"c":[h.to_lowercase(), h.to_lowercase(), h.to_lowercase(), h.to_lowercase()],"f":7}),
-            None => rng_json(&uniform_script(p, 1)),
+            None => rng_json(&classy_script(p, &n_sm2())),
         }
     };
     // history: on some honest runs the same two Exchange objects run the protocol a second time
